@@ -174,7 +174,9 @@ CLAIMS: dict[str, tuple[str, str, str, str]] = {
         "text/newline_declines_at_backslash (unit steps); inline_literal (Props/C09b.lean: for every text t "
         "without line feed, every chain text :: mid ++ escape :: post with mid rules declining at a backslash, "
         "every maxNesting >= 1: inline parse + fragments_join + text_join of escapeAll t = exactly one text token "
-        "holding t — an induction over the real loop model, with the pending-text invariant LitState). MISSING: "
+        "holding t — an induction over the real loop model, with the pending-text invariant LitState); imgChain_literal (Props/C09c.lean): the same for the "
+        "eleven-rule inline chain (emphasis, strikethrough, backticks, link, image, autolink, html_inline, entity each on or off) with the real second chain over "
+        "all delimiter scopes — the literal loop records no delimiter and closes no scope, and there balance_pairs and both post-processing rules are the identity. MISSING: "
         "texts with line feeds, the numeric-reference encoding and the block contexts are decided by the oracle "
         "(7 contexts x 4 encodings x 2 presets, expected HTML computed from t). Tie: executable inline engine model (text/newline/escape/fragments_join/text_join) vs real "
         "ParserInline under rule subsets/maxNesting; unescapeAll vs real. Known finding D12 (table cell, "
